@@ -5238,6 +5238,22 @@ where
             })?;
         }
 
+        // Topology safety net (mirrors insertion): retriangulation and flip repair can leave
+        // cells stored with negative orientation, unwired neighbor pointers or a pinched/open
+        // boundary. Never commit such a state; the caller rolls back to the snapshot on `Err`.
+        if self.tri.tds.number_of_cells() > 0 {
+            self.tri
+                .normalize_and_promote_positive_orientation()
+                .map_err(|err| TdsValidationError::InconsistentDataStructure {
+                    message: format!(
+                        "Geometric orientation normalization failed after vertex removal: {err}"
+                    ),
+                })?;
+            // Level 2 (structure) first, then Level 3 (topology).
+            self.tri.tds.is_valid()?;
+            self.tri.is_valid()?;
+        }
+
         Ok(cells_removed)
     }
 
